@@ -32,7 +32,9 @@ func (v *Vibranium) newTask(ctx context.Context, name string, verbose bool) *tas
 		log.WithFunc("vibranium.newTask").WithField("name", name).Debug(ctx, "task added")
 	}
 	v.counter.Add(1)
+	v.taskNumLock.Lock()
 	v.TaskNum++
+	v.taskNumLock.Unlock()
 	return &task{
 		v:       v,
 		name:    name,
@@ -49,7 +51,9 @@ func (t *task) done() {
 		log.WithFunc("vibranium.done").WithField("name", t.name).Debug(t.context, "task done")
 	}
 	t.v.counter.Done()
+	t.v.taskNumLock.Lock()
 	t.v.TaskNum--
+	t.v.taskNumLock.Unlock()
 }
 
 // Wait for all tasks done
